@@ -177,7 +177,7 @@ def native_run(target, inputs, choices):
                 fn = cls.__dict__[mname]
                 fn = getattr(fn, '__func__', fn)
                 setattr(obj, mname, _types.MethodType(fn, obj))
-        for handle, (ifile, icls) in getattr(target, 'inline_class', {}).items():
+        for handle, (ifile, icls) in _inline_classes(target, st).items():
             import types as _types
             from . import extract as _ex
             mod, _g = _ex.module_globals(ifile)
@@ -199,8 +199,8 @@ def native_run(target, inputs, choices):
                 if isinstance(fn, staticmethod):
                     return fn.__func__
                 return _types.MethodType(getattr(fn, '__func__', fn), obj)
-            if isinstance(getattr(st, handle), Obj):
-                object.__setattr__(getattr(st, handle), '_fallback', nfb)
+            if isinstance(_resolve_handle(st, handle), Obj):
+                object.__setattr__(_resolve_handle(st, handle), '_fallback', nfb)
         with target.patched(externs):
             out = target.run_native(ctx, st)
             clauses = list(target.ensures(ctx, st, out))     # evaluated under the same patched externs
@@ -261,7 +261,7 @@ def explore_chunk(target, work, limit, carve_names, tier, cross_check=True):
                 iex = _ex.function(ifile, icls + '.' + mname)
                 setattr(obj, mname, BoundClosure(Closure(iex.node, Env(globs=iglobs), it, icls + '.' + mname), obj))
                 rep.inlined[icls + '.' + mname] = iex.describe()
-        for handle, (ifile, icls) in getattr(target, 'inline_class', {}).items():
+        for handle, (ifile, icls) in _inline_classes(target, st).items():
             # any OTHER method of the class that the code calls on this stub is interpreted from its real source
             from .interp import Closure, Env, BoundClosure
             from . import extract as _ex
@@ -291,8 +291,8 @@ def explore_chunk(target, work, limit, carve_names, tier, cross_check=True):
                 if 'staticmethod' in decos:
                     return clo_
                 return BoundClosure(clo_, obj)
-            if isinstance(getattr(st, handle), Obj):
-                object.__setattr__(getattr(st, handle), '_fallback', fb)
+            if isinstance(_resolve_handle(st, handle), Obj):
+                object.__setattr__(_resolve_handle(st, handle), '_fallback', fb)
         out = None
         try:
             out = target.run_symbolic(ctx, st, it, ex, globs)
@@ -411,6 +411,44 @@ def _account_path(target, rep, res, carve, tier, cross_check):
     if len(rep.path_samples) < 3 and res.outcome == 'done':
         rep.path_samples.append({"path": pid, "choices": dict(ctx.choices), "outcome": repr(res.value)[:200],
                                  "pc_size": len(ctx.pc)})
+
+
+def _inline_classes(target, st):
+    """Target.inline_class, plus -- by default -- the class of the method under contract for the stubs called `this` / `cls`
+    in the State: a helper method, class constant or new instance field that the code starts to use is then taken from the
+    REAL class instead of stopping the run with 'undeclared in the contract' (robustness against harmless refactorings)."""
+    out = dict(getattr(target, 'inline_class', {}) or {})
+    q = getattr(target, 'qualname', None) or ''
+    if '.' in q and getattr(target, 'file', None):
+        cname = q.split('.')[0]
+        try:
+            import ast as _ast
+            from . import extract as _ex
+            _src, tree = _ex.parse_file(target.file)
+            is_class = any(isinstance(n, _ast.ClassDef) and n.name == cname for n in tree.body)
+        except Exception:
+            is_class = False
+        if is_class:
+            for handle in ('this', 'cls'):
+                if handle not in out and isinstance(getattr(st, handle, None), Obj):
+                    out[handle] = (target.file, cname)
+            recv = _receiver(st)
+            if recv is not None and not any(_resolve_handle(st, h) is recv for h in out):
+                out['__receiver__'] = (target.file, cname)
+    return out
+
+
+def _receiver(st):
+    """the stub passed as self / cls: first positional argument, the `self` keyword (slices) or the closure's free `self`"""
+    for cand in ((st.args[0] if getattr(st, 'args', None) else None), (getattr(st, 'kwargs', None) or {}).get('self'),
+                 (getattr(st, 'free', None) or {}).get('self')):
+        if isinstance(cand, Obj):
+            return cand
+    return None
+
+
+def _resolve_handle(st, handle):
+    return _receiver(st) if handle == '__receiver__' else getattr(st, handle, None)
 
 
 class _FieldDefault:
